@@ -28,7 +28,15 @@ PINNED = ["C18_order_full", "C18_order_ties", "C18_insert_keeps_order", "C18_ful
           "C18_row_matches", "C18_list_sound", "C18_list_complete", "C18_search_complete", "C18_delete_exact",
           "C18_delete_text", "C18_record_rule", "C18_record_sound", "C18_record_complete", "C18_record_independent",
           "C18_record_first", "C18_record_processes", "C18_record_space_led", "C18_record_space_led_run", "C18_record_origin",
-          "C18_record_expanded", "C18_bang_unchanged"]
+          "C18_record_expanded", "C18_bang_unchanged", "C18_bangbang_is_source_regex"]
+
+
+def gen(ctx=None):
+    """Gen/ToolsRegexes.v from the regex literals of tools.rs (round 9; proof in Proofs/BangRegexProofs.v)"""
+    import regexsites
+    regexsites.gen_tools()
+
+
 TRUSTED = [
     "Coq 8.16.1 kernel (coqc; coqchk in thorough); vm_compute only in the Example",
     "hand transcription of the statement templates, parameter vectors and of the main loop's recording rule "
